@@ -3127,7 +3127,10 @@ def vecdot(x1, x2, /, *, axis=-1):
     if not (-ndmin <= axis < ndmin) or x1.shape[axis] != x2.shape[axis]:
         raise ValueError("Shapes must match along `axis`.")
 
+    x1 = moveaxis(x1, axis, -1)
+    x2 = moveaxis(x2, axis, -1)
+
     if np.issubdtype(x1.dtype, np.complexfloating):
         x1 = np.conjugate(x1)
 
-    return np.sum(x1 * x2, axis=axis, dtype=np.result_type(x1, x2))
+    return np.sum(x1 * x2, axis=-1, dtype=np.result_type(x1, x2))
